@@ -103,23 +103,70 @@ Theorem C08_fullcolrank_dec_spec : forall (F : OF) n (A : list (lvec F)),
 Proof. exact fullcolrank_dec_spec. Qed.
 Print Assumptions C08_fullcolrank_dec_spec.
 
-(* FULL statement wanted: "A has full column rank <=> the tester set is informationally complete (states span and effects
-   span the operator space)" for all four types. Proved: <=> identifiability of the variables from the schedules' Born
-   statistics (all types); the span argument (tensor products of spanning sets span) for QPT/QMPT and the passage from
-   identifiability to "spanning" are missing, as is "rank_elim = numerical matrix_rank" (is_fullrank_matA is compared by
-   the harness only). *)
-Theorem C08_fullrank_iff_identifiable_partial : forall (F : OF) n (A : list (lvec F)) (b : list F) (stat : rvec F -> list F),
+(* full column rank <=> the unknown's variables are identified by the predicted statistics (any A, b, stat) *)
+Theorem C08_fullrank_iff_identifiable : forall (F : OF) n (A : list (lvec F)) (b : list F) (stat : rvec F -> list F),
   length A = length b -> (forall v, affine A b v = stat v) ->
   (kernel_trivial F n A <-> identifiable F n stat).
 Proof. exact fullrank_iff_identifiable. Qed.
-Print Assumptions C08_fullrank_iff_identifiable_partial.
+Print Assumptions C08_fullrank_iff_identifiable.
 
+(* ---- "it has full column rank whenever the tester set is informationally complete": all four types, both flags, any
+   dimension / outcome counts / schedule list. Informationally complete = the scheduled effects (QST), the scheduled states
+   (POVMT) separate coefficient vectors (span the operator space); for QPT / QMPT: index sets I (states), K (POVMs) whose
+   states resp. effects separate and every pair (i, k) of I x K is scheduled (further / repeated schedules are allowed).
+   The CONVERSE (full column rank => informationally complete) is not part of the property text; it is proved below for QST
+   without the equality constraint only (C08_qst_fullrank_iff_ic). "matrix_rank" of the code is an oracle: these theorems are
+   about the exact rank / kernel. *)
+Theorem C08_qst_fullrank_of_ic : forall (F : OF) d para sd (povms : list (list (lvec F))) (scheds : list nat),
+  sd <> c0 F ->
+  (forall i, In i scheds -> forall pv, In pv (nth i povms []) -> length pv = (d * d)%nat) ->
+  separating F (d * d) (concat (map (fun i => nth i povms []) scheds)) ->
+  kernel_trivial F (qst_num_variables para d) (calc_matA (qst_coeffs F para sd povms scheds)).
+Proof. exact qst_fullrank_of_ic. Qed.
+Print Assumptions C08_qst_fullrank_of_ic.
+Theorem C08_povmt_fullrank_of_ic : forall (F : OF) d para sd m (states : list (lvec F)) (scheds : list nat),
+  (0 < d)%nat ->
+  (forall i, In i scheds -> length (nth i states []) = (d * d)%nat) ->
+  separating F (d * d) (map (fun i => nth i states []) scheds) ->
+  kernel_trivial F (povmt_num_variables para d m) (calc_matA (povmt_coeffs F para sd m states scheds)).
+Proof. exact povmt_fullrank_of_ic. Qed.
+Print Assumptions C08_povmt_fullrank_of_ic.
+Theorem C08_qpt_fullrank_of_ic : forall (F : OF) d para (I K : list nat) (states : list (lvec F)) (povms : list (list (lvec F)))
+    (scheds : list (nat * nat)),
+  (0 < d)%nat ->
+  (forall ik, In ik scheds -> length (nth (fst ik) states []) = (d * d)%nat /\
+                              forall pv, In pv (nth (snd ik) povms []) -> length pv = (d * d)%nat) ->
+  (forall i k, In i I -> In k K -> In (i, k) scheds) ->
+  separating F (d * d) (map (fun i => nth i states []) I) ->
+  separating F (d * d) (concat (map (fun k => nth k povms []) K)) ->
+  kernel_trivial F (qpt_num_variables para d) (calc_matA (qpt_coeffs F para states povms scheds)).
+Proof. exact qpt_fullrank_of_ic. Qed.
+Print Assumptions C08_qpt_fullrank_of_ic.
+Theorem C08_qmpt_fullrank_of_ic : forall (F : OF) d (para : bool) m (I K : list nat) (states : list (lvec F))
+    (povms : list (list (lvec F))) (scheds : list (nat * nat)),
+  (0 < d)%nat -> ((if para then 2 else 1) <= m)%nat ->
+  (forall ik, In ik scheds -> length (nth (fst ik) states []) = (d * d)%nat /\
+                              forall pv, In pv (nth (snd ik) povms []) -> length pv = (d * d)%nat) ->
+  (forall i k, In i I -> In k K -> In (i, k) scheds) ->
+  separating F (d * d) (map (fun i => nth i states []) I) ->
+  separating F (d * d) (concat (map (fun k => nth k povms []) K)) ->
+  exists dct, qmpt_coeffs F para (d * d) m states povms scheds = Some dct /\
+              kernel_trivial F (qmpt_num_variables para d m) (calc_matA dct).
+Proof. exact qmpt_fullrank_of_ic. Qed.
+Print Assumptions C08_qmpt_fullrank_of_ic.
+
+(* both directions for QST without the equality constraint (rows of A = the scheduled effects) *)
 Theorem C08_qst_fullrank_iff_ic : forall (F : OF) d sd (povms : list (list (lvec F))) (scheds : list nat),
   (forall i, In i scheds -> forall pv, In pv (nth i povms []) -> length pv = (d * d)%nat) ->
   (kernel_trivial F (d * d) (calc_matA (qst_coeffs F false sd povms scheds))
    <-> separating F (d * d) (concat (map (fun i => nth i povms []) scheds))).
 Proof. exact qst_fullrank_iff_ic. Qed.
 Print Assumptions C08_qst_fullrank_iff_ic.
+(* "separating" is decidable by the exact elimination: a family of effects / states separates <=> full column rank *)
+Theorem C08_separating_dec : forall (F : OF) n (effects : list (lvec F)),
+  (forall r, In r effects -> length r = n) -> (fullcolrank_dec F n effects = true <-> separating F n effects).
+Proof. exact separating_dec_spec. Qed.
+Print Assumptions C08_separating_dec.
 
 (* ---- the two-step ensemble path quara takes for compose(povm, mprocess, state) gives the joint Born probability *)
 Theorem C08_ensemble_path : forall (F : OF) d sd (pv : lvec F) (HS : rmat F) (s : lvec F),
@@ -128,16 +175,117 @@ Theorem C08_ensemble_path : forall (F : OF) d sd (pv : lvec F) (HS : rmat F) (s 
 Proof. exact ensemble_path_ok. Qed.
 Print Assumptions C08_ensemble_path.
 
-(* ---- calc_prob_dists (as coded: reshape((num_schedules, -1)) + truncate_and_normalize).
-   With EQUAL outcome counts it returns the schedules' distributions (for valid distributions: entries 0 or >= eps, sum 1) *)
-Theorem C08_calc_prob_dists_equal_counts : forall (F : OF) eps (A : list (lvec F)) (b : list F) (v : rvec F) (borns : list (list F)) w,
-  affine A b v = concat borns -> borns <> [] -> (0 < w)%nat -> (forall p, In p borns -> length p = w) ->
-  (forall p, In p borns -> valid_dist F eps p) ->
-  calc_prob_dists F eps A b v (length borns) = Some borns.
-Proof. exact calc_prob_dists_equal_counts. Qed.
-Print Assumptions C08_calc_prob_dists_equal_counts.
+(* ---- calc_prob_dists (code after fix calc-prob-dists-mixed-outcome-counts: np.split at the cumulative num_outcomes(j), then
+   truncate_and_normalize per schedule). For ANY outcome counts -- equal or mixed -- it returns the schedules' distributions
+   (for valid distributions: entries 0 or >= eps, sum 1; without that hypothesis: their truncate_and_normalize images). *)
+Theorem C08_calc_prob_dists : forall (F : OF) eps (A : list (lvec F)) (b : list F) (v : rvec F) (borns : list (list F)),
+  affine A b v = concat borns -> borns <> [] -> (forall p, In p borns -> valid_dist F eps p) ->
+  calc_prob_dists F eps A b v (map (@length F) borns) = borns.
+Proof. exact calc_prob_dists_ok. Qed.
+Print Assumptions C08_calc_prob_dists.
+Theorem C08_calc_prob_dists_rows : forall (F : OF) eps (A : list (lvec F)) (b : list F) (v : rvec F) (borns : list (list F)),
+  affine A b v = concat borns -> borns <> [] ->
+  calc_prob_dists F eps A b v (map (@length F) borns) = map (trunc_norm F eps) borns.
+Proof. exact calc_prob_dists_rows. Qed.
+Print Assumptions C08_calc_prob_dists_rows.
 
-(* the same claim WITHOUT "equal outcome counts" is false of the code (DESIGN section 4 #10).
+(* end to end from the coefficient dictionaries, counts = num_outcomes(j) as the four classes define it *)
+Theorem C08_qst_calc_prob_dists : forall (F : OF) d para sd eps (povms : list (list (lvec F))) (scheds : list nat) (v : rvec F),
+  sd <> c0 F -> scheds <> [] ->
+  (forall i, In i scheds -> forall pv, In pv (nth i povms []) -> length pv = (d * d)%nat) ->
+  (forall i, In i scheds -> valid_dist F eps (qst_born F d para sd (nth i povms []) v)) ->
+  let dct := qst_coeffs F para sd povms scheds in
+  calc_prob_dists F eps (calc_matA dct) (calc_vecB dct) v (qst_counts F povms scheds)
+  = map (fun i => qst_born F d para sd (nth i povms []) v) scheds.
+Proof. exact qst_calc_prob_dists. Qed.
+Print Assumptions C08_qst_calc_prob_dists.
+Theorem C08_povmt_calc_prob_dists : forall (F : OF) d para sd eps m (states : list (lvec F)) (scheds : list nat) (v : rvec F),
+  (0 < d)%nat -> scheds <> [] ->
+  (forall i, In i scheds -> length (nth i states []) = (d * d)%nat) ->
+  (forall i, In i scheds -> valid_dist F eps (povmt_born F d para sd m (nth i states []) v)) ->
+  let dct := povmt_coeffs F para sd m states scheds in
+  calc_prob_dists F eps (calc_matA dct) (calc_vecB dct) v (povmt_counts m scheds)
+  = map (fun i => povmt_born F d para sd m (nth i states []) v) scheds.
+Proof. exact povmt_calc_prob_dists. Qed.
+Print Assumptions C08_povmt_calc_prob_dists.
+Theorem C08_qpt_calc_prob_dists : forall (F : OF) d para eps (states : list (lvec F)) (povms : list (list (lvec F)))
+    (scheds : list (nat * nat)) (v : rvec F),
+  (0 < d)%nat -> scheds <> [] ->
+  (forall ik, In ik scheds -> length (nth (fst ik) states []) = (d * d)%nat /\
+                              forall pv, In pv (nth (snd ik) povms []) -> length pv = (d * d)%nat) ->
+  (forall ik, In ik scheds -> valid_dist F eps (qpt_born F d para (nth (fst ik) states []) (nth (snd ik) povms []) v)) ->
+  let dct := qpt_coeffs F para states povms scheds in
+  calc_prob_dists F eps (calc_matA dct) (calc_vecB dct) v (qpt_counts F povms scheds)
+  = map (fun ik => qpt_born F d para (nth (fst ik) states []) (nth (snd ik) povms []) v) scheds.
+Proof. exact qpt_calc_prob_dists. Qed.
+Print Assumptions C08_qpt_calc_prob_dists.
+Theorem C08_qmpt_calc_prob_dists : forall (F : OF) d (para : bool) eps m (states : list (lvec F)) (povms : list (list (lvec F)))
+    (scheds : list (nat * nat)),
+  (0 < d)%nat -> ((if para then 2 else 1) <= m)%nat -> scheds <> [] ->
+  (forall ik, In ik scheds -> length (nth (fst ik) states []) = (d * d)%nat /\
+                              forall pv, In pv (nth (snd ik) povms []) -> length pv = (d * d)%nat) ->
+  exists dct, qmpt_coeffs F para (d * d) m states povms scheds = Some dct /\
+    forall v : rvec F,
+      (forall ik, In ik scheds -> valid_dist F eps (qmpt_born F d para m (nth (fst ik) states []) (nth (snd ik) povms []) v)) ->
+      calc_prob_dists F eps (calc_matA dct) (calc_vecB dct) v (qmpt_counts F m povms scheds)
+      = map (fun ik => qmpt_born F d para m (nth (fst ik) states []) (nth (snd ik) povms []) v) scheds.
+Proof. exact qmpt_calc_prob_dists. Qed.
+Print Assumptions C08_qmpt_calc_prob_dists.
+
+(* ---- calc_fisher_matrix's slice (code after fix calc-fisher-matrix-mixed-outcome-counts): the predicted distribution it uses
+   for schedule j IS the forward model restricted to schedule j, for any outcome counts *)
+Theorem C08_fisher_slice : forall (F : OF) (A : list (lvec F)) (b : list F) (v : rvec F) (borns : list (list F)) j,
+  affine A b v = concat borns -> (j < length borns)%nat ->
+  fisher_prob_dist F A b v (map (@length F) borns) j = nth j borns [].
+Proof. exact fisher_slice_ok. Qed.
+Print Assumptions C08_fisher_slice.
+Theorem C08_qst_fisher_slice : forall (F : OF) d para sd (povms : list (list (lvec F))) (scheds : list nat) (v : rvec F) j,
+  sd <> c0 F -> (j < length scheds)%nat ->
+  (forall i, In i scheds -> forall pv, In pv (nth i povms []) -> length pv = (d * d)%nat) ->
+  let dct := qst_coeffs F para sd povms scheds in
+  fisher_prob_dist F (calc_matA dct) (calc_vecB dct) v (qst_counts F povms scheds) j
+  = qst_born F d para sd (nth (nth j scheds O) povms []) v.
+Proof. exact qst_fisher_slice. Qed.
+Print Assumptions C08_qst_fisher_slice.
+Theorem C08_qpt_fisher_slice : forall (F : OF) d para (states : list (lvec F)) (povms : list (list (lvec F)))
+    (scheds : list (nat * nat)) (v : rvec F) j,
+  (0 < d)%nat -> (j < length scheds)%nat ->
+  (forall ik, In ik scheds -> length (nth (fst ik) states []) = (d * d)%nat /\
+                              forall pv, In pv (nth (snd ik) povms []) -> length pv = (d * d)%nat) ->
+  let dct := qpt_coeffs F para states povms scheds in
+  fisher_prob_dist F (calc_matA dct) (calc_vecB dct) v (qpt_counts F povms scheds) j
+  = qpt_born F d para (nth (fst (nth j scheds (O, O))) states []) (nth (snd (nth j scheds (O, O))) povms []) v.
+Proof. exact qpt_fisher_slice. Qed.
+Print Assumptions C08_qpt_fisher_slice.
+
+(* ---- is_fullrank_matA (code after fix fullrank-guard-column-rank, owner C09: rank == number of columns), the rank being the
+   exact elimination (np.linalg.matrix_rank is an oracle compared by the harness): true <=> trivial kernel *)
+Theorem C08_is_fullrank_matA_spec : forall (F : OF) n (A : list (lvec F)),
+  (forall r, In r A -> length r = n) -> (is_fullrank_matA F n A = true <-> kernel_trivial F n A).
+Proof. exact is_fullrank_matA_spec. Qed.
+Print Assumptions C08_is_fullrank_matA_spec.
+
+(* ==== the code as it was BEFORE the fixes ([calc_prob_dists_reshape], [fisher_prob_dist_evenslice],
+   [is_fullrank_matA_minshape] in Model/C08_Forward.v). Compatibility: on equal outcome counts / non-wide matrices the
+   repaired code computes exactly what the old code computed. *)
+Theorem C08_calc_prob_dists_compat : forall (F : OF) eps (A : list (lvec F)) (b : list F) (v : rvec F) S w,
+  (0 < S)%nat -> (0 < w)%nat -> length (affine A b v) = (S * w)%nat ->
+  calc_prob_dists_reshape F eps A b v S = Some (calc_prob_dists F eps A b v (repeat w S)).
+Proof. exact calc_prob_dists_compat. Qed.
+Print Assumptions C08_calc_prob_dists_compat.
+Theorem C08_fisher_slice_compat : forall (F : OF) (A : list (lvec F)) (b : list F) (v : rvec F) S w j,
+  (0 < S)%nat -> length A = (S * w)%nat -> (j < S)%nat ->
+  fisher_prob_dist_evenslice F A b v S j = fisher_prob_dist F A b v (repeat w S) j.
+Proof. exact fisher_slice_compat. Qed.
+Print Assumptions C08_fisher_slice_compat.
+Theorem C08_is_fullrank_matA_compat : forall (F : OF) n (A : list (lvec F)),
+  (n <= length A)%nat -> is_fullrank_matA_minshape F n A = is_fullrank_matA F n A.
+Proof. exact is_fullrank_matA_compat. Qed.
+Print Assumptions C08_is_fullrank_matA_compat.
+
+(* WITHOUT "equal outcome counts" the old code did not return the schedules' distributions (DESIGN section 4 #10); these
+   refutations are about [calc_prob_dists_reshape] / [fisher_prob_dist_evenslice] = the code BEFORE the fixes; the same
+   witnesses are replayed on the real code by the harness (sub-check witness) and must now give the right answer.
    Witnesses: one qubit, QST without constraint, coordinates w.r.t. the basis (I, X, Y, Z) scaled so that all entries are
    rational (effect a0 I + a.sigma -> (2 a0, 2 a), state (I + r.sigma)/2 -> (1/2, r/2)); state r = (0.3, 0.2, 0.5). *)
 Definition q (n : Z) (d : positive) : Qc := Q2Qc (n # d).
@@ -160,17 +308,17 @@ Proof. intros p Hp. cbn [w_borns map In] in Hp. destruct Hp as [<-|[<-|[]]]; (sp
   | apply Qc_is_canon; vm_compute; reflexivity ]). Qed.
 
 (* 3 + 2 outcomes: 5 is not a multiple of 2 schedules, the reshape raises; 4 + 2 outcomes: silently cut 3 + 3 *)
-Theorem C08_calc_prob_dists_mixed_refuted :
+Theorem C08_calc_prob_dists_reshape_mixed_refuted :
   (exists (povms : list (list (lvec Qc_OF))) (v : rvec Qc_OF),
      let dct := qst_coeffs Qc_OF false 1%Qc povms [0; 1]%nat in
      let borns := map (fun i => qst_born Qc_OF 2 false 1%Qc (nth i povms []) v) [0; 1]%nat in
      affine (calc_matA dct) (calc_vecB dct) v = concat borns /\ (forall p, In p borns -> valid_dist Qc_OF w_eps p) /\
-     calc_prob_dists Qc_OF w_eps (calc_matA dct) (calc_vecB dct) v (length borns) = None) /\
+     calc_prob_dists_reshape Qc_OF w_eps (calc_matA dct) (calc_vecB dct) v (length borns) = None) /\
   (exists (povms : list (list (lvec Qc_OF))) (v : rvec Qc_OF) rows,
      let dct := qst_coeffs Qc_OF false 1%Qc povms [0; 1]%nat in
      let borns := map (fun i => qst_born Qc_OF 2 false 1%Qc (nth i povms []) v) [0; 1]%nat in
      affine (calc_matA dct) (calc_vecB dct) v = concat borns /\ (forall p, In p borns -> valid_dist Qc_OF w_eps p) /\
-     calc_prob_dists Qc_OF w_eps (calc_matA dct) (calc_vecB dct) v (length borns) = Some rows /\
+     calc_prob_dists_reshape Qc_OF w_eps (calc_matA dct) (calc_vecB dct) v (length borns) = Some rows /\
      map (@length Qc) rows = [3; 3]%nat /\ map (@length Qc) borns = [4; 2]%nat).
 Proof. split.
   - exists [w_povm3; w_povm2], (vl w_state). cbv zeta. split; [|split].
@@ -185,19 +333,19 @@ Proof. split.
     + vm_compute. reflexivity.
     + vm_compute. reflexivity.
     + vm_compute. reflexivity. Qed.
-Print Assumptions C08_calc_prob_dists_mixed_refuted.
+Print Assumptions C08_calc_prob_dists_reshape_mixed_refuted.
 
-(* calc_fisher_matrix's slicing  rows [size*j, size*(j+1)), size = int(len(A)/num_schedules), with the 3 + 2 witness:
+(* the OLD calc_fisher_matrix slicing  rows [size*j, size*(j+1)), size = int(len(A)/num_schedules), with the 3 + 2 witness:
    for schedule 1 it uses rows 2..3 (the last outcome of schedule 0 and the first of schedule 1) instead of rows 3..4 *)
-Theorem C08_fisher_slice_mixed_refuted :
+Theorem C08_fisher_evenslice_mixed_refuted :
   exists (povms : list (list (lvec Qc_OF))) (v : rvec Qc_OF),
     let dct := qst_coeffs Qc_OF false 1%Qc povms [0; 1]%nat in
-    fisher_prob_dist Qc_OF (calc_matA dct) (calc_vecB dct) v 2 1 = [q 3 10; q 3 5] /\
+    fisher_prob_dist_evenslice Qc_OF (calc_matA dct) (calc_vecB dct) v 2 1 = [q 3 10; q 3 5] /\
     qst_born Qc_OF 2 false 1%Qc (nth 1 povms []) v = [q 3 5; q 2 5].
 Proof. exists [w_povm3; w_povm2], (vl w_state). cbv zeta. split.
   - vm_compute. repeat f_equal; apply Qc_is_canon; reflexivity.
   - vm_compute. repeat f_equal; apply Qc_is_canon; reflexivity. Qed.
-Print Assumptions C08_fisher_slice_mixed_refuted.
+Print Assumptions C08_fisher_evenslice_mixed_refuted.
 
 (* ---- non-vacuity: the hypotheses of the forward theorems on a concrete, non-trivial instance over Qc
    (QPT, one qubit in the rational scaled basis, equality constraint on, two states x two POVMs with 3 and 2 outcomes,
@@ -222,8 +370,76 @@ Proof. cbv zeta. assert (H : forall ik, In ik [(1, 1); (0, 0); (1, 1)]%nat ->
   - apply (proj1 (qpt_shape Qc_OF 2 true _ _ _ H)).
   - apply qpt_forward; [lia|exact H]. Qed.
 
+(* the old guard on a wide matrix with independent rows (C09's smallest instance [[1, 0]]): "full rank" although the kernel is
+   not trivial; the repaired guard says false *)
+Theorem C08_is_fullrank_minshape_wide_refuted :
+  exists A : list (lvec Qc_OF), (forall r, In r A -> length r = 2%nat) /\
+    is_fullrank_matA_minshape Qc_OF 2 A = true /\ ~ kernel_trivial Qc_OF 2 A /\ is_fullrank_matA Qc_OF 2 A = false.
+Proof. exists [[q 1 1; q 0 1]]. split; [|split; [|split]].
+  - intros r [<-|[]]. reflexivity.
+  - vm_compute. reflexivity.
+  - intros Hk. apply (fullcolrank_dec_spec Qc_OF 2 [[q 1 1; q 0 1]]) in Hk.
+    + vm_compute in Hk. discriminate.
+    + intros r [<-|[]]. reflexivity.
+  - vm_compute. reflexivity. Qed.
+Print Assumptions C08_is_fullrank_minshape_wide_refuted.
+
+(* the repaired calc_prob_dists / Fisher slice on the two witnesses: the schedules' own distributions *)
+Example C08_example_calc_prob_dists_mixed :
+  let v := vl w_state in
+  (let dct := qst_coeffs Qc_OF false 1%Qc [w_povm3; w_povm2] [0; 1]%nat in
+   calc_prob_dists Qc_OF w_eps (calc_matA dct) (calc_vecB dct) v (qst_counts Qc_OF [w_povm3; w_povm2] [0; 1]%nat)
+     = [[q 3 8; q 13 40; q 3 10]; [q 3 5; q 2 5]] /\
+   fisher_prob_dist Qc_OF (calc_matA dct) (calc_vecB dct) v (qst_counts Qc_OF [w_povm3; w_povm2] [0; 1]%nat) 1 = [q 3 5; q 2 5]) /\
+  (let dct := qst_coeffs Qc_OF false 1%Qc [w_povm4; w_povm2] [0; 1]%nat in
+   calc_prob_dists Qc_OF w_eps (calc_matA dct) (calc_vecB dct) v (qst_counts Qc_OF [w_povm4; w_povm2] [0; 1]%nat)
+     = [[q 3 8; q 1 8; q 13 40; q 7 40]; [q 3 5; q 2 5]]).
+Proof. cbv zeta. split; [split|].
+  - vm_compute. repeat f_equal; apply Qc_is_canon; reflexivity.
+  - vm_compute. repeat f_equal; apply Qc_is_canon; reflexivity.
+  - vm_compute. repeat f_equal; apply Qc_is_canon; reflexivity. Qed.
+
+(* the hypotheses of C08_qst_calc_prob_dists are satisfiable with MIXED outcome counts (3 and 2) *)
+Example C08_example_qst_calc_prob_dists_hyps :
+  (forall i, In i [0; 1]%nat -> forall pv, In pv (nth i [w_povm3; w_povm2] []) -> length pv = (2 * 2)%nat) /\
+  (forall i, In i [0; 1]%nat -> valid_dist Qc_OF w_eps (qst_born Qc_OF 2 false 1%Qc (nth i [w_povm3; w_povm2] []) (vl w_state))) /\
+  qst_counts Qc_OF [w_povm3; w_povm2] [0; 1]%nat = [3; 2]%nat.
+Proof. split; [|split].
+  - intros i Hi pv Hpv. destruct Hi as [<-|[<-|[]]]; cbn in Hpv; repeat (destruct Hpv as [<-|Hpv]; [reflexivity|]); destruct Hpv.
+  - intros i Hi. apply w_valid3. destruct Hi as [<-|[<-|[]]]; [left|right; left]; reflexivity.
+  - reflexivity. Qed.
+
 (* the exact rank decision on a concrete complete / incomplete QST tester set (rows = effects of X-, Y-, Z-type POVMs) *)
 Example C08_example_rank :
   fullcolrank_dec Qc_OF 4 (w_povm4 ++ w_povm2) = true /\ fullcolrank_dec Qc_OF 4 w_povm4 = false /\
-  is_fullrank_matA Qc_OF 4 w_povm2 = true /\ fullcolrank_dec Qc_OF 4 w_povm2 = false.
+  is_fullrank_matA_minshape Qc_OF 4 w_povm2 = true /\ is_fullrank_matA Qc_OF 4 w_povm2 = false.
 Proof. repeat split; vm_compute; reflexivity. Qed.
+
+(* the hypotheses of C08_qpt_fullrank_of_ic / C08_qmpt_fullrank_of_ic are satisfiable: one qubit (rational scaled basis), four
+   states spanning the operator space, the X/Z 4-outcome POVM and the Y 2-outcome POVM (MIXED outcome counts), every pair
+   scheduled once plus a repetition, out of order; and the conclusion in its decided form *)
+Definition w_states4 : list (lvec Qc_OF) :=
+  [[q 1 2; q 0 1; q 0 1; q 1 2]; [q 1 2; q 0 1; q 0 1; q (-1) 2]; [q 1 2; q 1 2; q 0 1; q 0 1]; [q 1 2; q 0 1; q 1 2; q 0 1]].
+Definition w_scheds_ic : list (nat * nat) := [(3, 1); (0, 0); (0, 1); (1, 0); (1, 1); (2, 0); (2, 1); (3, 0); (0, 0)]%nat.
+Example C08_example_ic_hyps :
+  (forall ik, In ik w_scheds_ic -> length (nth (fst ik) w_states4 []) = (2 * 2)%nat /\
+                                  forall pv, In pv (nth (snd ik) [w_povm4; w_povm2] []) -> length pv = (2 * 2)%nat) /\
+  (forall i k, In i [0; 1; 2; 3]%nat -> In k [0; 1]%nat -> In (i, k) w_scheds_ic) /\
+  separating Qc_OF (2 * 2) (map (fun i => nth i w_states4 []) [0; 1; 2; 3]%nat) /\
+  separating Qc_OF (2 * 2) (concat (map (fun k => nth k [w_povm4; w_povm2] []) [0; 1]%nat)) /\
+  fullcolrank_dec Qc_OF 12 (calc_matA (qpt_coeffs Qc_OF true w_states4 [w_povm4; w_povm2] w_scheds_ic)) = true.
+Proof. split; [|split; [|split; [|split]]].
+  - intros ik Hik. unfold w_scheds_ic in Hik. repeat (destruct Hik as [<-|Hik]; [split; [reflexivity|];
+      intros pv Hpv; cbn in Hpv; repeat (destruct Hpv as [<-|Hpv]; [reflexivity|]); destruct Hpv|]). destruct Hik.
+  - intros i k Hi Hk. repeat (destruct Hi as [<-|Hi]; [repeat (destruct Hk as [<-|Hk]; [vm_compute; tauto|]); destruct Hk|]). destruct Hi.
+  - apply (separating_iff_kernel Qc_OF 4).
+    + intros r Hr. cbn in Hr. repeat (destruct Hr as [<-|Hr]; [reflexivity|]). destruct Hr.
+    + apply (fullcolrank_dec_spec Qc_OF 4).
+      * intros r Hr. cbn in Hr. repeat (destruct Hr as [<-|Hr]; [reflexivity|]). destruct Hr.
+      * vm_compute. reflexivity.
+  - apply (separating_iff_kernel Qc_OF 4).
+    + intros r Hr. cbn in Hr. repeat (destruct Hr as [<-|Hr]; [reflexivity|]). destruct Hr.
+    + apply (fullcolrank_dec_spec Qc_OF 4).
+      * intros r Hr. cbn in Hr. repeat (destruct Hr as [<-|Hr]; [reflexivity|]). destruct Hr.
+      * vm_compute. reflexivity.
+  - vm_compute. reflexivity. Qed.
